@@ -11,8 +11,8 @@
 (* Composition(s, t), Conjunction([t, s]), Conjunction([s, t]),            *)
 (* Stack([t, s]), Stack([s, t]), Conjunction([t]), Stack([t]).  A term     *)
 (* that cannot be built is a dead end (the real constructor must raise).   *)
-(* At depth >= SampleFrom only terms whose content hash is SamplePick      *)
-(* modulo SampleMod are expanded further.                                  *)
+(* Atoms are always expanded; of the depth-1 terms those whose content     *)
+(* hash is Pick1 modulo Mod1, of the deeper ones Pick2 modulo Mod2.        *)
 (*                                                                         *)
 (* Checked on every term: implementation-shaped constructor = key typing   *)
 (* (BuildAgrees); MRO-fold union type = most specific common type, on      *)
@@ -24,7 +24,7 @@
 (***************************************************************************)
 EXTENDS Transforms, TransformsPool, TLC, Json
 
-CONSTANTS MaxDepth, SampleFrom, SampleMod, SamplePick, ExportMod
+CONSTANTS MaxDepth, Mod1, Pick1, Mod2, Pick2, ExportMod
 
 VARIABLES t
 vars == <<t>>
@@ -65,7 +65,8 @@ Pool == CAtoms \cup PoolLit
 \* ------------------------------------------------------------------ behaviour
 Init == t \in Atoms \cup Nullary
 Expandable == /\ Constructible(t) /\ Depth(t) < MaxDepth
-              /\ (Depth(t) >= SampleFrom => (TermHash(t) % SampleMod) = SamplePick)
+              /\ (Depth(t) = 1 => (TermHash(t) % Mod1) = Pick1)
+              /\ (Depth(t) >= 2 => (TermHash(t) % Mod2) = Pick2)
 Next == /\ Expandable
         /\ \E s \in Pool : t' \in Wraps(t, s)
 Spec == Init /\ [][Next]_vars
